@@ -18,7 +18,17 @@ RULE = ("enumerated: for ~60 zones (thorough: all) the offset-changing transitio
         "carries at 58..61 s, 3599/3600 s, 86399/86400 s, 1 year, sub-second negatives such as timedelta(microseconds=-1), each landing on / starting in / crossing every kind of tz transition, "
         "UTC and fixed offsets; td-random (log-uniform |td| < 2^33 s); td-beyond-2-33 (|td| >= 2^33 s: the listed finding); td-naive; td-add-duration-float / td-add-seconds-float = ARBITRARY doubles "
         "(neighbours of microsecond values, exact halves n + j/128, 59.999..., subnormals, inf, nan) through helpers.add_duration(dt, seconds=x) and DateTime.add(seconds=x). "
-        "non-trivial = distinct (zone, instant, amount, route).")
+        "ZONE-CTOR (stream zone-ctor, fn add_ctor; in the model: the same add_fixed / add_timedelta / sub_timedelta entries, whose zone is the TABLE, so the constructor path cannot matter there and "
+        "add_moves_instant_exactly / model_is_code_datetime_add quantify over every tz object): the zone of the start value is obtained by EVERY constructor path -- pendulum.timezone(name), Timezone(name), "
+        "Timezone.no_cache(name), tz='Name' string, a stdlib zoneinfo.ZoneInfo passed as tz=, Timezone.from_file(open(TZif)) with and without key= (no key: name None), the local-timezone paths "
+        "(set_local_timezone(file zone) + tz='local', test_local_timezone(file zone), TZ=<path> through _get_unix_timezone() and through pendulum.local_timezone(), a regular-file <root>/etc/localtime), "
+        "in_timezone(file zone) from UTC, pendulum.instance(native datetime in a file zone); fixed offsets by pendulum.timezone(int), tz.fixed_timezone, FixedTimezone(offset), FixedTimezone(offset, name=), "
+        "tz=<float hours>, tz=datetime.timezone(...) -- each x {add, subtract, + td, - td, td + dt} x {crossing a transition forwards / backwards, landing on it, starting inside it}; the oracle also "
+        "demands that the result carries the SAME tzinfo object / timezone_name as the start. "
+        "LOCALTZ-CONFIG (stream localtz-config, fn localtz_run; model Model/LocalTzConfig.v, dispatch localtz_run): random histories of set_local_timezone(zone) / set_local_timezone() / "
+        "get_local_timezone() with the system zone (TZ=<TZif path>) changing between the calls / test_local_timezone(zone), over named zones, file-loaded zones without key and fixed offsets; per get the zone "
+        "handed out (mock by identity, system zone by its offsets) is compared with the model and add(hours=720 / -4800 / 1) and + timedelta on a tz='local' value must be exact in it. "
+        "non-trivial = distinct (zone, constructor path, instant, amount, route) / distinct history.")
 EXHAUSTIVE = {"quick": False, "thorough": False}
 TRUSTED = ["zoneinfo / tzdata as in C01, C02", "Model/TzConvert.v add_fixed / add_naive hand model of DateTime.add (tied by correspondence); helpers.add_duration is translated (Gen/AddDuration.v)",
            "Model/FloatRoutes.v: hand model of the float route (_add_timedelta_/_subtract_timedelta -> add(seconds=<float>) -> add_duration's float carry chain -> CPython's timedelta(float args): "
@@ -29,6 +39,16 @@ TRUSTED = ["zoneinfo / tzdata as in C01, C02", "Model/TzConvert.v add_fixed / ad
 ASSUMPTIONS = ["native datetime arithmetic of CPython (naive + timedelta) is Spec/NativeDT.v ndt_add_td; validated by the add_duration stream"]
 ROUTES = ["add", "subtract", "plus_td", "minus_td"]
 TD_ROUTES = ["plus_td", "minus_td", "radd_td"]
+CTOR_ROUTES = ["add", "subtract", "plus_td", "minus_td", "radd_td"]
+# every way a caller can come by the zone of a DateTime (the property says "aware in any zone")
+NAMED_CTORS = ["timezone", "Timezone", "no_cache", "str", "zoneinfo", "from_file", "from_file_key", "local_set", "local_test", "local_env", "local_env_get",
+               "local_etc", "in_tz_file", "instance_file"]
+FIXED_CTORS = ["timezone_int", "fixed_timezone", "FixedTimezone", "FixedTimezone_named", "float_hours", "stdlib_timezone"]
+# zones of the local-timezone histories: mock id i+1 = LTZ_UNIVERSE[i] (even i: loaded from its TZif file, no key; odd i: by name), then the fixed offsets;
+# system id 101+i = TZ=<path of LTZ_UNIVERSE[i]'s file>.  Pairwise different offsets at LTZ_PROBE (the fingerprint that identifies a system zone).
+LTZ_UNIVERSE = ["Europe/Paris", "America/New_York", "Australia/Lord_Howe", "Asia/Kathmandu", "Asia/Tehran", "Pacific/Apia"]
+LTZ_FIXED = [20700, -12600]
+LTZ_HOURS = [24 * 30, -24 * 200, 1]
 B33 = 2 ** 33 * 10 ** 6          # microseconds in 2^33 seconds: below it float total_seconds() round-trips exactly (theorem)
 FINDING_TD = "timedelta-float-seconds-beyond-2-33"
 
@@ -193,6 +213,80 @@ def cases(tier, seed):
         am = _amounts(rnd) if isdt or rnd.random() < 0.2 else [0, 0, 0, 0]
         out.append({"stream": "add_duration", "fn": "add_duration", "args": [W, isdt, ym + am]})
     out += _td_cases(tier, rnd, zs)
+    out += _ctor_cases(tier, rnd, zs)
+    return out
+
+
+def _split(rnd, delta):
+    """Some (hours, minutes, seconds, microseconds) with mixed signs whose total is delta microseconds."""
+    k = rnd.randrange(4)
+    if k == 0:
+        return [0, 0, delta // T.MEG, delta % T.MEG]
+    if k == 1:
+        return [0, 0, 0, delta]
+    h, m = rnd.randrange(-30, 31), rnd.randrange(-200, 201)
+    rest = delta - (h * 60 + m) * 60 * T.MEG
+    if k == 2:
+        return [h, m, rest // T.MEG, rest % T.MEG]
+    us = rnd.randrange(-3 * 10 ** 6, 3 * 10 ** 6)
+    rest -= us
+    return [h, m + rest // (60 * T.MEG), (rest % (60 * T.MEG)) // T.MEG, us + rest % T.MEG]
+
+
+def _ctor_cases(tier, rnd, zs):
+    """Zones obtained by every constructor path (named, file-loaded without key, local-timezone loader, fixed offsets), around transitions, every route."""
+    out = []
+    must = ["Europe/Paris", "America/New_York", "Australia/Lord_Howe", "Europe/Dublin", "Africa/Casablanca", "Pacific/Apia", "America/St_Johns", "Asia/Tehran"]
+    extra = [z for z in zs if z not in must and z != "UTC"]
+    names = [z for z in must if z in zones.names()] + extra[:6 if tier == "quick" else 60]
+    cnt = {}
+    for name in names:
+        trs = T.transition_probes(name, rnd, per_zone=4 if tier == "quick" else 10)
+        for (tt, o_pre, o_post) in trs:
+            sh = abs(o_post - o_pre)
+            base = (tt + T.EPOCH_S) * T.MEG
+            for ctor in NAMED_CTORS:
+                for rep in range(2):
+                    k = cnt[ctor] = cnt.get(ctor, -1) + 1       # per constructor path: every (mode, route) pair in turn
+                    mode = k % 4
+                    d1 = rnd.choice([1, T.MEG, 1800 * T.MEG, rnd.randrange(1, 2 * T.US_DAY), rnd.randrange(1, 40 * T.US_DAY)])
+                    d2 = rnd.choice([0, 1, sh * T.MEG, rnd.randrange(0, 2 * T.US_DAY), rnd.randrange(0, 40 * T.US_DAY)])
+                    if mode == 0:       # forwards across the transition
+                        U, delta = base - d1, d1 + d2
+                    elif mode == 1:     # backwards across it
+                        U, delta = base + d2, -(d1 + d2)
+                    elif mode == 2:     # land on / just around it
+                        U = base + rnd.choice([-1, 1]) * d1
+                        delta = base - U + rnd.choice([-1, 0, 1, sh * T.MEG, -sh * T.MEG, sh * T.MEG - 1])
+                    else:               # start inside the gap / overlap, any amount
+                        U = base + rnd.choice([0, 1, (sh // 2) * T.MEG, sh * T.MEG - 1, -sh * T.MEG, -1])
+                        delta = _total(_amounts(rnd))
+                    route = CTOR_ROUTES[(k // 4) % 5]
+                    if not (_in_range(U) and _in_range(U + delta)):
+                        continue
+                    out.append({"stream": "zone-ctor", "fn": "add_ctor", "args": [name, ctor, U, _split(rnd, delta), route]})
+    for off in [0, 3600, -12600, 20700, 49500, -34200, 86340, -86340, 1, -3599]:
+        for ctor in FIXED_CTORS:
+            if ctor == "float_hours" and int((off / 3600) * 60 * 60) != off:
+                continue
+            if ctor == "stdlib_timezone" and off == 0:
+                continue        # datetime.timezone.utc is mapped to the named zone UTC (a different, equally exact, zone): covered by the named paths
+            for route in CTOR_ROUTES:
+                U = rnd.randrange(T.US_DAY * 400, T.MAX_WALL - T.US_DAY * 400)
+                am = _amounts(rnd)
+                if _in_range(U + _total(am)):
+                    out.append({"stream": "zone-ctor", "fn": "add_ctor", "args": [off, ctor, U, am, route]})
+    # the local-timezone configuration itself as a state machine (Model/LocalTzConfig.v): histories of set / clear / get / test-context, the system zone
+    # (TZ=<path of a TZif file>) changing between the calls; after every get, 30 days are added across a transition in the zone handed out
+    for _ in range(150 if tier == "quick" else 1500):
+        ops = []
+        for _ in range(rnd.randrange(2, 9)):
+            code = rnd.choice([0, 0, 1, 2, 2, 2, 3])
+            arg = {0: rnd.randrange(1, len(LTZ_UNIVERSE) + len(LTZ_FIXED) + 1), 1: 0, 2: 101 + rnd.randrange(len(LTZ_UNIVERSE)),
+                   3: rnd.randrange(1, len(LTZ_UNIVERSE) + len(LTZ_FIXED) + 1)}[code]
+            ops += [code, arg]
+        ops += [2, 101 + rnd.randrange(len(LTZ_UNIVERSE))]
+        out.append({"stream": "localtz-config", "fn": "localtz_run", "args": [ops]})
     return out
 
 
@@ -285,8 +379,233 @@ def _total(am):
     return ((h * 60 + m) * 60 + s) * T.MEG + us
 
 
+# ----------------------------------------------------------------------------- zones by constructor path (runs in the staged interpreter)
+def tzfile_path(name):
+    """The TZif file zoneinfo.ZoneInfo(name) itself reads: TZPATH first, then the tzdata package."""
+    import os
+    import zoneinfo
+    from importlib import resources
+    for root in zoneinfo.TZPATH:
+        q = os.path.join(root, name)
+        if os.path.isfile(q):
+            return q
+    pkg, _, leaf = ("tzdata.zoneinfo." + name.replace("/", ".")).rpartition(".")
+    return str(resources.files(pkg).joinpath(leaf))
+
+
+_ETC_ROOTS = {}
+
+
+def _etc_root(name):
+    """A scratch root whose etc/localtime is a REGULAR FILE holding the zone (the usual situation in containers)."""
+    import os
+    import shutil
+    import tempfile
+    r = _ETC_ROOTS.get(name)
+    if r is None:
+        r = tempfile.mkdtemp(prefix="c03root-", dir="/var/tmp")
+        os.makedirs(os.path.join(r, "etc"))
+        shutil.copyfile(tzfile_path(name), os.path.join(r, "etc", "localtime"))
+        _ETC_ROOTS[name] = r
+    return r
+
+
+def _cleanup_roots():
+    import shutil
+    for r in _ETC_ROOTS.values():
+        shutil.rmtree(r, ignore_errors=True)
+    _ETC_ROOTS.clear()
+
+
+def start_by_ctor(spec, ctor, U, body):
+    """Build the start DateTime (instant U) in the zone `spec` obtained through constructor path `ctor`, run body(x) while that path's
+    configuration is in force, restore every process-wide setting touched.  Returns body's value."""
+    import os
+    import zoneinfo
+    import pendulum
+    import importlib
+    lt = importlib.import_module("pendulum.tz.local_timezone")      # the module (pendulum.tz.local_timezone the attribute is a function of the same name)
+    from pendulum.tz.timezone import FixedTimezone, Timezone
+    W, fold, off = T.ref_render(T.ref_zone(spec), U)
+    y, mo, d, h, mi, s, us = T.fields_of(W)
+
+    def file_zone(**kw):
+        with open(tzfile_path(spec), "rb") as f:
+            return Timezone.from_file(f, **kw)
+
+    def direct(tz):
+        return body(pendulum.DateTime(y, mo, d, h, mi, s, us, tzinfo=tz, fold=fold))
+
+    def via_arg(tz):
+        return body(pendulum.datetime(y, mo, d, h, mi, s, us, tz=tz, fold=fold))
+
+    saved = (lt._mock_local_timezone, lt._local_timezone, os.environ.get("TZ"))
+    try:
+        if ctor == "timezone" or ctor == "timezone_int":
+            return direct(pendulum.timezone(spec))
+        if ctor == "Timezone":
+            return direct(Timezone(spec))
+        if ctor == "no_cache":
+            return direct(Timezone.no_cache(spec))
+        if ctor == "str":
+            return via_arg(spec)
+        if ctor == "zoneinfo":
+            return via_arg(zoneinfo.ZoneInfo(spec))
+        if ctor == "from_file":
+            return direct(file_zone())
+        if ctor == "from_file_key":
+            return direct(file_zone(key=spec))
+        if ctor == "local_set":
+            pendulum.set_local_timezone(file_zone())
+            return via_arg("local")
+        if ctor == "local_test":
+            with pendulum.tz.test_local_timezone(file_zone()):
+                return via_arg("local")
+        if ctor == "local_env":
+            os.environ["TZ"] = (":" if U % 2 else "") + tzfile_path(spec)
+            return direct(lt._get_unix_timezone())
+        if ctor == "local_env_get":
+            os.environ["TZ"] = tzfile_path(spec)
+            lt._mock_local_timezone = None
+            lt._local_timezone = None
+            return via_arg(pendulum.local_timezone())
+        if ctor == "local_etc":
+            os.environ.pop("TZ", None)
+            return direct(lt._get_unix_timezone(_root=_etc_root(spec)))
+        if ctor == "in_tz_file":
+            yy, mm, dd, hh, mi2, ss, uu = T.fields_of(U)
+            return body(pendulum.DateTime(yy, mm, dd, hh, mi2, ss, uu, tzinfo=pendulum.UTC).in_timezone(file_zone()))
+        if ctor == "instance_file":
+            return body(pendulum.instance(_dt.datetime(y, mo, d, h, mi, s, us, tzinfo=file_zone(), fold=fold)))
+        if ctor == "fixed_timezone":
+            return direct(pendulum.tz.fixed_timezone(spec))
+        if ctor == "FixedTimezone":
+            return direct(FixedTimezone(spec))
+        if ctor == "FixedTimezone_named":
+            return direct(FixedTimezone(spec, name="Custom/Offset"))
+        if ctor == "float_hours":
+            return via_arg(spec / 3600)
+        if ctor == "stdlib_timezone":
+            return via_arg(_dt.timezone(_dt.timedelta(seconds=spec)))
+        raise KeyError(ctor)
+    finally:
+        lt._mock_local_timezone, lt._local_timezone = saved[0], saved[1]
+        if saved[2] is None:
+            os.environ.pop("TZ", None)
+        else:
+            os.environ["TZ"] = saved[2]
+
+
+def _localtz_run(ops):
+    """A history of the local-timezone configuration, from the import state; restores what it touched.  Result [0, id, exact, id, exact, ...]:
+    per get the zone handed out (mock id by IDENTITY, system id 101+i by fingerprint) and whether adding 30 days / subtracting 200 days of hours
+    to a tz='local' value moved the instant by exactly that much (the addition crosses a DST change in every zone of the universe that has one)."""
+    import importlib
+    import os
+    import pendulum
+    from pendulum.tz.timezone import FixedTimezone, Timezone
+    lt = importlib.import_module("pendulum.tz.local_timezone")
+    probe = _dt.datetime(2021, 1, 15, 12)
+    mocks = []
+    for i, name in enumerate(LTZ_UNIVERSE):
+        if i % 2 == 0:
+            with open(tzfile_path(name), "rb") as f:
+                mocks.append(Timezone.from_file(f))
+        else:
+            mocks.append(Timezone(name))
+    mocks += [FixedTimezone(o) for o in LTZ_FIXED]
+    prints = {zoneinfo_offset(name, probe): 101 + i for i, name in enumerate(LTZ_UNIVERSE)}
+
+    def ident(z):
+        for i, m in enumerate(mocks):
+            if z is m:
+                return i + 1
+        return prints.get(z.utcoffset(probe), 999)
+
+    def probe_add():
+        z = pendulum.local_timezone()
+        x = pendulum.datetime(2021, 3, 1, 12, 30, tz="local")
+        code = 1                        # 1 = all exact; 10 + 2k (+1) = the k-th amount of LTZ_HOURS failed through add() (through + timedelta)
+        for k, hours in enumerate(LTZ_HOURS):
+            for j, r in enumerate((x.add(hours=hours), x + _dt.timedelta(hours=hours))):
+                if code == 1 and not (r.tzinfo is x.tzinfo and _instant(r) - _instant(x) == hours * 3600 * T.MEG):
+                    code = 10 + 2 * k + j
+        return [ident(z), code]
+
+    saved = (lt._mock_local_timezone, lt._local_timezone, os.environ.get("TZ"))
+    out = [0]
+    try:
+        lt._mock_local_timezone = None
+        lt._local_timezone = None
+        for code, arg in zip(ops[::2], ops[1::2]):
+            if code == 0:
+                pendulum.set_local_timezone(mocks[arg - 1])
+            elif code == 1:
+                pendulum.set_local_timezone()
+            elif code == 2:
+                os.environ["TZ"] = tzfile_path(LTZ_UNIVERSE[arg - 101])
+                out += probe_add()
+            else:
+                with pendulum.tz.test_local_timezone(mocks[arg - 1]):
+                    out += probe_add()
+        return out
+    finally:
+        lt._mock_local_timezone, lt._local_timezone = saved[0], saved[1]
+        if saved[2] is None:
+            os.environ.pop("TZ", None)
+        else:
+            os.environ["TZ"] = saved[2]
+
+
+def zoneinfo_offset(name, naive):
+    import zoneinfo
+    return zoneinfo.ZoneInfo(name).utcoffset(naive)
+
+
+def _instant(d):
+    """UTC instant in integer microseconds from the fields and the offset only."""
+    return T.wall_of(d) - T.off_s(d) * T.MEG
+
+
+def _ctor_body(x, U, spec, am, route):
+    """The operation and its inverse on a start value x; canonical result
+    [0, W, fold, off,  0, W_back, fold_back, off_back,  same-zone flag]  ([7, k] when the start / the zone of a result is not what it must be)."""
+    W, fold, off = T.ref_render(T.ref_zone(spec), U)
+    if T.dt_result(x) != [0, W, fold, off]:
+        return [7, 4]                       # the start value is not the requested instant: nothing to say about add()
+    kw = dict(hours=am[0], minutes=am[1], seconds=am[2], microseconds=am[3])
+    neg = {k: -v for k, v in kw.items()}
+    if route == "add":
+        r = x.add(**kw)
+        back = r.subtract(**kw)
+    elif route == "subtract":
+        r = x.subtract(**neg)
+        back = r.add(**neg)
+    elif route == "plus_td":
+        td = _dt.timedelta(microseconds=_total(am))
+        r = x + td
+        back = r - td
+    elif route == "radd_td":
+        td = _dt.timedelta(microseconds=_total(am))
+        r = td + x
+        back = r - td
+    else:
+        td = _dt.timedelta(microseconds=-_total(am))
+        r = x - td
+        back = r + td
+    same_zone = int(r.tzinfo is x.tzinfo and back.tzinfo is x.tzinfo and r.timezone_name == x.timezone_name and back.timezone_name == x.timezone_name)
+    return T.dt_result(r, x.timezone_name) + T.dt_result(back, x.timezone_name) + [same_zone]
+
+
 # ----------------------------------------------------------------------------- implementation
 def impl_run(cases):
+    try:
+        return _impl_run(cases)
+    finally:
+        _cleanup_roots()
+
+
+def _impl_run(cases):
     import pendulum
     from pendulum.helpers import add_duration
     out = []
@@ -315,6 +634,11 @@ def impl_run(cases):
                     r = x - td
                     back = r + td
                 out.append(T.dt_result(r, tz.name) + T.dt_result(back, tz.name))
+            elif fn == "add_ctor":
+                spec, ctor, U, am, route = a
+                out.append(start_by_ctor(spec, ctor, U, lambda x: _ctor_body(x, U, spec, am, route)))
+            elif fn == "localtz_run":
+                out.append(_localtz_run(a[0]))
             elif fn == "td_route":
                 spec, U, N, route = a
                 W, fold, off = T.ref_render(T.ref_zone(spec), U)
@@ -375,15 +699,21 @@ def _window(spec, U0, U1):
     return enc
 
 
+def _ctor_view(c):
+    """An add_ctor case seen by the model and the oracle: the zone is its table whatever the constructor path."""
+    spec, ctor, U, am, route = c["args"]
+    return spec, U, am, route
+
+
 def model_calls(c, backend):
     fn, a = c["fn"], c["args"]
-    if fn == "add_fixed":
-        spec, U, am, route = a
+    if fn in ("add_fixed", "add_ctor"):
+        spec, U, am, route = a if fn == "add_fixed" else _ctor_view(c)
         W, fold, off = T.ref_render(T.ref_zone(spec), U)
         enc = _window(spec, U, U + _total(am))
         if enc is None:
             return None
-        if route == "plus_td":      # x + timedelta(microseconds=total): the float route (Model/FloatRoutes.v)
+        if route in ("plus_td", "radd_td"):      # x + timedelta(microseconds=total): the float route (Model/FloatRoutes.v)
             return [("add_timedelta", enc + [W, fold, _total(am)])]
         if route == "minus_td":     # x - timedelta(microseconds=-total)
             return [("sub_timedelta", enc + [W, fold, -_total(am)])]
@@ -395,6 +725,8 @@ def model_calls(c, backend):
         if enc is None:
             return None
         return [("sub_timedelta" if route == "minus_td" else "add_timedelta", enc + [W, fold, N])]
+    if fn == "localtz_run":
+        return [("localtz_run", [0, 0] + a[0])]
     if fn == "td_naive":
         W, N, route = a
         return [("sub_timedelta_naive" if route == "minus_td" else "add_timedelta_naive", [0, 0, W, 1, N])]
@@ -423,7 +755,7 @@ def model_result(c, backend, outs):
 
 def same(c, m, r):
     fn = c["fn"]
-    if fn == "add_fixed":
+    if fn in ("add_fixed", "add_ctor"):
         if r[0] == 1 or m[0] == 1:
             return m[:2] == r[:2]
         return m == r[:4]
@@ -437,14 +769,20 @@ def same(c, m, r):
         return m[:3] == r[:3]
     if fn == "add_duration_float" and (r[0] == 1 or m[0] == 1):
         return m[:2] == r[:2]
+    if fn == "localtz_run":
+        return r[0] == 0 and m == [0] + r[1::2]
     return m == r
 
 
 # ----------------------------------------------------------------------------- the property
 def oracle(c, backend, r):
     fn, a = c["fn"], c["args"]
-    if fn == "add_fixed":
-        spec, U, am, route = a
+    if fn in ("add_fixed", "add_ctor"):
+        spec, U, am, route = a if fn == "add_fixed" else _ctor_view(c)
+        if fn == "add_ctor":
+            route = f"{route} [zone {spec!r} obtained by {a[1]}]"
+            if r[:2] == [7, 4]:
+                return f"{route}: the start value built for instant {U} is not that instant (construction, not add)"
         tot = _total(am)
         U2 = U + tot
         if not (0 <= U2 <= T.MAX_WALL):
@@ -461,6 +799,25 @@ def oracle(c, backend, r):
         W0, f0, o0 = T.ref_render(T.ref_zone(spec), U)
         if r[4:8] != [0, W0, f0, o0]:
             return f"{route} then its inverse from instant {U} in {spec} with {am}: came back to {r[4:8]}, expected {[0, W0, f0, o0]}"
+        if fn == "add_ctor" and r[8:9] != [1]:
+            return f"{route} from instant {U} with {am}: the result is not in the SAME timezone (tzinfo object / timezone_name) as the start"
+        return None
+    if fn == "localtz_run":
+        # whatever zone the local-timezone configuration hands out, fixed units are exact in it
+        ops = a[0]
+        if r[0] != 0:
+            return f"local-timezone history {ops} raised {r[:2]}"
+        # (WHICH zone the configuration hands out is the model's business -- Model/LocalTzConfig.v, a difference there is a broken tie; the property only
+        #  demands exact fixed-unit arithmetic in whatever zone it is)
+        if any(v != 1 for v in r[2::2]):
+            k = [v != 1 for v in r[2::2]].index(True)
+            zid, code = r[1 + 2 * k], r[2 + 2 * k]
+            zone = (f"{(LTZ_UNIVERSE + LTZ_FIXED)[zid - 1]!r}" + (" loaded with Timezone.from_file (no key)" if zid <= len(LTZ_UNIVERSE) and zid % 2 else "")) if 1 <= zid <= 100 else \
+                   (f"the system zone TZ=<TZif file of {LTZ_UNIVERSE[zid - 101]}> (no key)" if 101 <= zid < 101 + len(LTZ_UNIVERSE) else f"unidentified zone {zid}")
+            hours = LTZ_HOURS[(code - 10) // 2] if 10 <= code < 10 + 2 * len(LTZ_HOURS) else "?"
+            op = f"x + timedelta(hours={hours})" if code % 2 else f"x.add(hours={hours})"
+            return (f"local-timezone history {ops} (0 m: set_local_timezone(zone m), 1: clear, 2 s: get with system zone s, 3 m: test_local_timezone(zone m)): get #{k} handed out {zone}; "
+                    f"x = pendulum.datetime(2021, 3, 1, 12, 30, tz='local'); {op} did not move the instant by exactly {hours} h in the same zone")
         return None
     if fn == "td_route":
         spec, U, N, route = a
@@ -579,3 +936,17 @@ TRUSTED = list(TRUSTED) + [
 ]
 LEVEL_NOTE = LEVEL_NOTE + (" Float entry points: coq/Gen/FloatGlueGen.v is translated on every run (from_timestamp under a float timestamp, float_timestamp, subtract(seconds=<float>), the plain branch of "
                            "_add_timedelta_ / _subtract_timedelta) and Proofs/FloatGlueFacts.v proves it equal to Model/FloatRoutes.v; DateTime.add under a float `seconds` stays a named primitive.")
+
+
+# ---- zones by constructor path and the local-timezone configuration (appended) ----
+TRUSTED = list(TRUSTED) + [
+    "Model/LocalTzConfig.v: hand transcription of tz/local_timezone.py get_local_timezone / set_local_timezone / test_local_timezone (state = mock + cached system zone; the system lookup "
+    "_get_system_timezone itself is an input `sys`), tied to /repo by the localtz-config stream only (not translated, not pinned); theorems local_zone_is_the_last_configured_one, "
+    "local_zone_after_clear_is_the_system_zone_read_once, test_local_timezone_context, add_in_the_local_zone_moves_instant_exactly",
+    "zone-ctor stream: the constructor path of the zone (by name, Timezone.from_file without key, the local-timezone loader, fixed offsets by int / float hours / FixedTimezone / datetime.timezone) is "
+    "NOT a parameter of the model -- a zone is its transition table and add_moves_instant_exactly / model_is_code_datetime_add quantify over every tz object --; that the implementation does not "
+    "depend on it either (no use of key / name / class beyond the Timezone / FixedTimezone dispatch) is what the stream's correspondence and oracle check",
+]
+LEVEL_NOTE = LEVEL_NOTE + (" Zones obtained by every constructor path (zone-ctor) run against the SAME model entries (in the model); the local-timezone configuration is a small Gallina state machine "
+                           "(Model/LocalTzConfig.v, in the model, correspondence only); the system lookup (TZ, /etc/localtime) is an input of that model, exercised through the real loader by the "
+                           "local_env / local_env_get / local_etc constructor paths (oracle + add model).")
